@@ -62,7 +62,11 @@ void harness(void)
 	VERIF_ASSUME(size <= APPEND_MAX);
 	data = malloc(size);
 	VERIF_ASSUME(data != NULL);
+#ifdef OFF0
+	m.offset = OFF0;	/* fill level case split (shape concrete) */
+#else
 	m.offset = verif_nd_size("offset");
+#endif
 	VERIF_ASSUME(m.offset < sizeof(m.data));
 	off0 = m.offset;
 	m.block_offset = 0;
